@@ -3,10 +3,13 @@
 (* Every state after the initial one is one *case*: an input, the reference encoder's free     *)
 (* choices, and the encoded bytes.  Invariants: decoder(encoder(x)) = x for every codec and     *)
 (* every chain (declarative layer); the impl-shaped decoder with all deviation switches off     *)
-(* agrees with it; with the switches on ("as the code is") every disagreement falls in a        *)
-(* listed class.  With Emit = TRUE each case is printed as one JSON line:                        *)
+(* agrees with it; with the switches DevAvg/DevArr/DevNul as the cfg sets them ("as the code    *)
+(* is": all FALSE since the fix: commits for png.avg, decodeparms.array, a85.nul) every          *)
+(* disagreement falls in a listed class.  With Emit = TRUE each case is printed as one JSON line: *)
 (*   chain case: [k, fam, plain, enc, chain (stages with effective params), form, impl, cls]    *)
-(*   row case  : [k, ft, bpp, prev, cur, want, impl]                                            *)
+(*   row case  : [k, ft, bpp, prev, cur, want, impl, avgdev]                                    *)
+(* cls / implAvg / avgdev describe the *repaired* deviations; the check script uses them only   *)
+(* to name the signature of a regression (a case that fails exactly as the old defect did).     *)
 EXTENDS Codecs, Json
 
 CONSTANTS
@@ -21,7 +24,8 @@ CONSTANTS
     StratRow,            \* stratified values for the None/Sub/Up/Average single-row cases
     MaxChain,            \* chains of length 2..MaxChain over the six stage templates
     PaethPlanes,         \* the whole (above, upper-left) plane is tabulated for left in 0..PaethPlanes-1 (0 = off)
-    Emit
+    Emit,
+    DevAvg, DevArr, DevNul   \* deviation switches of Codecs' impl-shaped layer: the code as it is (all FALSE = repaired)
 
 VARIABLES pc, case
 vars == <<pc, case>>
@@ -223,10 +227,11 @@ EncoderShape ==
 
 \* (impl-shaped, as repaired) lopdf's algorithm without the confirmed deviations refines the declarative layer
 ImplRepaired(c) == ImplDecodeO(c.enc, c.chain, c.form, NoOracle, FALSE, FALSE, FALSE)
-ImplAsIs(c)     == ImplDecodeO(c.enc, c.chain, c.form, NoOracle, TRUE, TRUE, TRUE)
+ImplAsIs(c)     == ImplDecodeO(c.enc, c.chain, c.form, NoOracle, DevAvg, DevArr, DevNul)
 Refines == IsChain => ImplRepaired(case) = Good(case.plain)
 
-\* classes of input on which the code as it is deviates (the narrow signatures of the known findings);
+\* classes of input on which the code deviates when the corresponding switch is on (the narrow signatures
+\* of the findings png.avg, decodeparms.array, a85.nul - all repaired; kept to name regressions);
 \* a case may belong to several
 Classes(c) ==
     (IF c.ws = 0 THEN {"a85.nul"} ELSE {})
@@ -252,7 +257,8 @@ PaethDecl(a, b, c) ==
                     (d(x) = d(a) => x = a) /\ (d(a) # d(x) /\ d(x) = d(b) => x = b)
     IN best
 RowWant(c) == PngDecodeRow(c.ft, c.bpp, c.prev, c.cur)
-RowImpl(c) == ImplPngDecodeRow(c.ft, c.bpp, c.prev, c.cur, TRUE)
+RowImpl(c) == ImplPngDecodeRow(c.ft, c.bpp, c.prev, c.cur, DevAvg)
+RowAvgDev(c) == ImplPngDecodeRow(c.ft, c.bpp, c.prev, c.cur, TRUE)     \* the row as the repaired png.avg defect computed it
 PaethOK ==
     (IsRow /\ case.ft = 4) =>
         /\ PaethPredictor(case.abc[1], case.abc[2], case.abc[3]) = PaethDecl(case.abc[1], case.abc[2], case.abc[3])
@@ -269,5 +275,5 @@ EmitInv ==
                               form |-> case.form, fts |-> case.fts, impl |-> ImplAsIs(case), implAvg |-> ImplAvgOnly(case),
                               cls |-> SetToSeq(Classes(case))])
                  ELSE ToJson([k |-> "row", ft |-> case.ft, bpp |-> case.bpp, prev |-> case.prev, cur |-> case.cur,
-                              want |-> RowWant(case), impl |-> RowImpl(case)])>>)
+                              want |-> RowWant(case), impl |-> RowImpl(case), avgdev |-> RowAvgDev(case)])>>)
 =============================================================================
